@@ -216,8 +216,14 @@ Definition target_ok (is_resp : bool) (ups : list string) (t : string) : bool :=
   || (negb (reserved t) && defined ups t).
 Definition rule_ok (is_resp : bool) (ups : list string) (r : rule) : bool :=
   negb (Nat.eqb (List.length (r_conds r)) 0) && forallb (cond_ok is_resp ups) (r_conds r) && target_ok is_resp ups (r_target r).
+(* every non-empty ip() condition of the response list gets its own address set, numbered by a 16-bit counter: the
+   property is claimed for at most 65536 of them (beyond, set numbers wrap and rules would test the wrong set) *)
+Definition ip_count_cond (c : cond) : nat := match c_body c with BIp (_ :: _) => 1 | _ => 0 end.
+Definition ip_count_conds (cs : list cond) : nat := fold_right (fun c n => (ip_count_cond c + n)%nat) 0%nat cs.
+Definition ip_count_rules (rs : list rule) : nat := fold_right (fun r n => (ip_count_conds (r_conds r) + n)%nat) 0%nat rs.
 Definition routing_ok (is_resp : bool) (ups : list string) (rt : routing) : bool :=
-  forallb (rule_ok is_resp ups) (rt_rules rt) && target_ok is_resp ups (rt_fallback rt).
+  forallb (rule_ok is_resp ups) (rt_rules rt) && target_ok is_resp ups (rt_fallback rt)
+  && (negb is_resp || (N.of_nat (ip_count_rules (rt_rules rt)) <=? 65536)).
 Definition wf_config (cfg : config) : bool :=
   wf_upstreams (cf_upstreams cfg) && routing_ok false (cf_upstreams cfg) (cf_request cfg)
   && routing_ok true (cf_upstreams cfg) (cf_response cfg).
@@ -346,6 +352,8 @@ Definition lookup_plan (rc : rconfig) (named : option string) (control_host host
   end.
 
 (* well-formedness of the written request list *)
+(* every key is one the kind accepts.  (The configuration grammar refuses an empty parameter list, so a written selector
+   has at least one alternative: required by rrule_ok below.) *)
 Definition selector_ok (k : ikind) (s : selector) : bool :=
   forallb (fun p => match param_holds k (fst p) (snd p) {| m_subtag := ""; m_name := ""; m_link := ""; m_host := ""; m_hits := [] |} with
                     | Some _ => true | None => false end) (s_params s).
@@ -354,8 +362,10 @@ Definition rrule_ok (ups : list string) (r : rrule) : bool :=
   | ShDns => rule_ok false ups (to_rule r)
   | ShInt k => negb (reserved (rr_target r)) && defined ups (rr_target r)
                && forallb (fun c => match c with RInt _ s => selector_ok k s | RDns _ => false end) (rr_conds r)
+               && forallb (fun c => match c with RInt _ s => negb (Nat.eqb (List.length (s_params s)) 0) | RDns _ => true end) (rr_conds r)
   | ShMixed => false
   end.
 Definition wf_rconfig (rc : rconfig) : bool :=
   wf_upstreams (rc_upstreams rc) && forallb (rrule_ok (rc_upstreams rc)) (rc_request rc)
-  && target_ok false (rc_upstreams rc) (rc_fallback rc) && routing_ok true (rc_upstreams rc) (rc_response rc).
+  && target_ok false (rc_upstreams rc) (rc_fallback rc) && routing_ok true (rc_upstreams rc) (rc_response rc)
+  && forallb (fun t => negb (String.eqb t "")) (rc_upstreams rc).      (* an upstream without tag is refused *)
